@@ -7,6 +7,9 @@ CONSTANTS
  Paths <- MCPaths
  MaxOps = 4
  WithFF = TRUE
+ MolIdx <- MCMolAll
+ MsgKinds <- MCMsgNone
+ MaxMsgs = 0
  HDev = "readerReusesBlock"
 INVARIANT ReadIsCurrent
 CHECK_DEADLOCK FALSE
